@@ -261,6 +261,20 @@ def word_level(ctx, stats, count):
         sa = norm([(min(lo, hi), max(lo, hi)) for lo, hi in A])
         sb = norm([(min(lo, hi), max(lo, hi)) for lo, hi in B])
         cases.append((A, B, sa, sb, aset_expr(A), aset_expr(B), A[na // 2][0]))
+    # sets that differ in one run's length only, by amounts that a narrower integer would lose (2^31, 2^32, 2^33,
+    # 2^32 + 2^31, 2^63), at the low end and near the top of the address space
+    for k in range(max(6, count // 20)):
+        b0 = rng.choice([0, 0x1000, 1 << 33])
+        base_runs = [(b0 + (1 << 36) * i, b0 + (1 << 36) * i + rng.randint(1, 9)) for i in range(rng.randint(1, 3))]
+        j = rng.randrange(len(base_runs))
+        delta = rng.choice([1 << 31, 1 << 32, 1 << 33, (1 << 32) + (1 << 31), 3 << 32, (1 << 35)])
+        other = list(base_runs)
+        other[j] = (other[j][0], other[j][1] + delta)
+        if k % 3 == 0:
+            base_runs, other = [(0, 0xffffffff)], [(0, (1 << 64) - 1)]
+        sa = norm(base_runs)
+        sb = norm(other)
+        cases.append((base_runs, other, sa, sb, aset_expr(base_runs), aset_expr(other), base_runs[0][0]))
     qs, expect = [], []
 
     def card(iv):
@@ -289,7 +303,16 @@ def word_level(ctx, stats, count):
             els = [p for a, b in sa for p in range(a, b)]
             add("%s elem" % ea, ("ints_pos", els))
             add("%s relem" % ea, ("ints_pos", els[::-1]))
+        # the words that only look leave both sets as they were, in their places
+        for pw, holds in (("?overlaps", bool(i_inter(sb, sa))), ("!overlaps", not i_inter(sb, sa)), ("?contains", not i_diff(sb, sa)), ("!contains", bool(i_diff(sb, sa))),
+                          ("?eq", sa == sb), ("!eq", sa != sb), ("?lt", None)):
+            if holds is None:
+                continue
+            add("%s %s %s sub" % (ea, eb, pw), ("set", i_diff(sa, sb)) if holds else ("count", 0))
+            add("%s %s %s drop" % (ea, eb, pw), ("set", sa) if holds else ("count", 0))
         add("%s %s ?eq" % (ea, eb), ("count", 1 if sa == sb else 0))
+        add("%s %s ?lt %s %s ?gt" % (ea, eb, ea, eb), ("count", 0))
+        add("[%s %s (?lt 1, ?eq 2, ?gt 3)] length" % (ea, eb), ("ints", [1]))
         add("%s %s !ne" % (ea, eb), ("count", 1 if sa == sb else 0))
         add("[%s] ==  [%s]" % (ea, eb), ("count", 1 if sa == sb else 0))
     ress = zw.run_cases([zw.enc(q) for q in qs])
